@@ -76,6 +76,36 @@ def main():
         json.dump(meta, open(f"{d}/meta.json", "w"), indent=1)
         print(seed_id, "suite: missing", len(missing), missing[:5], "confirmed:", meta["confirmed"])
         return
+    if "--checks-only" in sys.argv:
+        # re-run checks against a change that is already stored (after a check was strengthened); the earlier
+        # result is kept as checks_at_first
+        d = f"/verif/seeded/{seed_id}"
+        meta = json.load(open(f"{d}/meta.json"))
+        a = sh(f"git apply {diff}", cwd=wt)
+        if a.returncode != 0:
+            print("diff does not apply:", a.stderr)
+            sys.exit(2)
+        cenv = dict(os.environ)
+        cenv["PYTHONPATH"] = f"{wt}/src"
+        new = {}
+        try:
+            for c in checks:
+                t = time.time()
+                r = sh(f"/venv/bin/python -m verif {c} --tier quick", cwd="/verif", env=cenv, timeout=7200)
+                cls = [l.strip()[:200] for l in r.stdout.splitlines() if l.strip().startswith("class=")]
+                new[c] = {"exit": r.returncode, "wall_s": round(time.time() - t), "classes": cls[:4]}
+                print(f"  {c}: exit={r.returncode} {time.time() - t:.0f}s {cls[:1]}")
+        finally:
+            sh("git checkout -- .", cwd=wt)
+        if "checks_at_first" not in meta:
+            meta["checks_at_first"] = meta.get("checks", {})
+        meta["checks"] = {**meta.get("checks", {}), **new}
+        meta["caught_by"] = [c for c, v in meta["checks"].items() if v["exit"] == 1]
+        if needs and needs != "x":
+            meta["missed_at_first"] = needs
+        json.dump(meta, open(f"{d}/meta.json", "w"), indent=1)
+        print(seed_id, "caught_by:", meta["caught_by"])
+        return
     r = sh(f"/venv/bin/python {demo}", cwd=wt, env=env, timeout=900)
     meta["ran"]["demo_on_clean_tree"] = {"exit": r.returncode, "tail": r.stdout[-200:]}
     a = sh(f"git apply {diff}", cwd=wt)
